@@ -748,10 +748,25 @@ class Models(object):
                 "mut": mut_place is not None, "stack": tuple(ev.call_stack)}
         ev.loops_info[uid] = info
         # early returns recorded inside the body are existential over iterations
+        state_syms = frozenset(x for st in state_for.values() for x in tm.free_syms(st))
+        nsites = sum(len(f.returns) - n for f, n in zip(frames, nret0))
         for f, n in zip(frames, nret0):
             for i in range(n, len(f.returns)):
                 gate, rv, rs = f.returns[i]
                 rs2 = pre.copy()
+                # the only exit of a loop that carries no state, taken at the first element x with c(x) and returning
+                # r(x): this is `find` -  the exit happens iff any(src, c), with x = the first match
+                if nsites == 1 and not cells and isinstance(rv, tm.T):
+                    inner = [g for g in gate if elem in tm.free_syms(g) or g.op == "in_loop"]
+                    outer = [g for g in gate if not (elem in tm.free_syms(g) or g.op == "in_loop")]
+                    conds = [g for g in inner if g.op != "in_loop"]
+                    if conds and not any(tm.free_syms(g) & state_syms for g in conds) and not (tm.free_syms(rv) & state_syms) \
+                            and all(g.op != "in_loop" or g.a[0] == uid for g in inner):
+                        lamc = tm.lam([elem], tm.and_(*conds))
+                        first = mk("find_val", src, lamc)
+                        rv2 = tm.subst(rv, {elem: first})
+                        f.returns[i] = (tuple(outer) + (tm.any_(src, lamc),), rv2, rs2)
+                        continue
                 f.returns[i] = (gate, mk("loop_pick", uid, rv), rs2)
         ev.store = pre.copy()
         ev.store.live = True
